@@ -11,6 +11,7 @@ import (
 	"fmt"
 	grpcapi "github.com/attestantio/dirk/services/api/grpc"
 	"github.com/attestantio/dirk/services/checker"
+	"google.golang.org/grpc/metadata"
 	"math/big"
 	"net"
 	"os"
@@ -480,8 +481,18 @@ func cmdTLS(args []string) int {
 			return 2
 		}
 		signer := pb.NewSignerClient(conn)
-		for wi, acct := range []string{"Wallet 1/Account 5", "Wallet 2/Account 5"} {
+		for wi, acct := range []string{"Wallet 1/Account 5", "Wallet 2/Account 5", "Wallet 1/Account 5", "Wallet 2/Account 5"} {
 			cctx, ccancel := context.WithTimeout(ctx, 10*time.Second)
+			if wi >= 2 {
+				// the same two requests carrying request metadata that names other clients and a peer: what a caller
+				// writes into its own request is not its identity
+				md := metadata.MD{}
+				for _, key := range []string{"client", "client-name", "client-instance", "client-id", "x-client-name", "x-forwarded-client-cert", "authorization", "user", "common-name", "cn", "identity", "sender"} {
+					md.Append(key, "client-test01", "client-test02", "client-test03", "signer-test01")
+				}
+				cctx = metadata.NewOutgoingContext(cctx, md)
+				wi -= 2
+			}
 			r, err := signer.Sign(cctx, &pb.SignRequest{Id: &pb.SignRequest_Account{Account: acct}, Domain: mkDomain([]byte{2, 0, 0, 0}, 0), Data: fill32(0x55)})
 			ccancel()
 			got := err == nil && r.GetState() == pb.ResponseState_SUCCEEDED
